@@ -637,7 +637,7 @@ def rexpr(e):
     if k == "not":
         return "not %s" % rx(e["a"])
     if k == "app":
-        return e["f"] + " " + " ".join(rx(a) for a in e["args"])
+        return e["f"] + (("<" + ", ".join(e["targs"]) + ">") if e.get("targs") else "") + " " + " ".join(rx(a) for a in e["args"])
     if k == "lam":
         return "fun %s -> %s" % (" ".join(e["params"]), rexpr(e["body"]["fin"]))
     if k == "ctor":
@@ -780,7 +780,7 @@ def to_spec(prog):
     """the abstract program as spec/FoSem.tla reads it (type annotations dropped)"""
     def strip(n):
         if isinstance(n, dict):
-            return {k: strip(v) for k, v in n.items() if k not in ("ptypes", "rtype", "ftypes", "mtype", "elif", "profile", "pt", "vt", "oneline")}
+            return {k: strip(v) for k, v in n.items() if k not in ("ptypes", "rtype", "ftypes", "mtype", "elif", "profile", "pt", "vt", "oneline", "targs", "externs", "meta", "decl")}
         if isinstance(n, list):
             return [strip(v) for v in n]
         if isinstance(n, tuple):
@@ -788,6 +788,7 @@ def to_spec(prog):
         return n
     d = strip(prog)
     d["funcs"] = [{"name": f["name"], "params": f["params"], "body": f["body"]} for f in d["funcs"]]
+    d["externs"] = [{"name": x["name"], "arity": x["arity"], "ret": x["ret"]} for x in prog.get("externs", [])]
     return d
 
 
